@@ -7,6 +7,65 @@ ROOT = Path(__file__).resolve().parents[1]
 PY = "/venv/bin/python harness/check.py"
 
 CHECKS = {
+    "C01": dict(
+        category="translation_validation",
+        text="PARTIAL. The learner (gate inference + loop detection + heuristic walk, 3000 lines around pm4py) is not "
+             "modelled; the property is the stated Prop C01_full. What Lean proves is about the judge: the block "
+             "semantics of definitions only produces well-formed jobs (consecutive ids, every predecessor earlier: "
+             "runs_wellformed) over the definition's names (runs_types); acceptance is exactly 'an enumerated execution is "
+             "matched by the isomorphism search' (accepts_iff); parsed texts have break/detach last in their branch. "
+             "The check decides C01_full on inputs: the exhaustive small family, seeded random fragment-F definitions and "
+             "the 63 corpus files, each with its complete job set (Lean runs, loops once and twice) in a shuffled "
+             "presentation, through the real pv_to_puml_string in worker processes (pinned hash seed and uuid4); the "
+             "emitted text is parsed by Lean and must accept every input job; timeouts and exceptions are violations.",
+        ref="DESIGN.md §5 C01",
+        note="Trusted: Lean kernel for the judge's theorems; the diagram semantics (calibrated on the corpus); the janus "
+             "stand-in. Enumeration coverage, not a universal proof. Recorded findings: learner classes KF-A, KF-B, KF-C "
+             "and three corpus files.",
+        technique="Lean 4 executable semantics with proved well-formedness as the judge + enumeration of definitions through "
+                  "the real learner (translation validation); universal statement kept as a Prop",
+    ),
+    "C02": dict(
+        category="translation_validation",
+        text="PARTIAL. Same pipeline as C01 with complete job sets; every job of the emitted diagram with loops <= 2 (all up "
+             "to 300, evenly spread above) is decided for membership in the source definition by the Lean semantics. "
+             "Lean proves the judge: subset_sound (no rejected job among all jobs of the learned diagram => each is "
+             "isomorphic to a job of the source), accepts_iff, runs_wellformed, runs_types. C02_full is a stated Prop.",
+        ref="DESIGN.md §5 C02",
+        note="Trusted as C01. Loops are bounded at 2 as the property's quantifier says. Recorded findings: KF-A, KF-C and "
+             "two corpus files.",
+        technique="Lean 4 executable semantics + isomorphism search as the judge + enumeration through the real learner",
+    ),
+    "C05": dict(
+        category="translation_validation",
+        text="PARTIAL. The Lean parser is the grammar of the dialect plus2json consumes (one partition/group, every "
+             "fork/split/switch/repeat closed by its own terminator in nested order, separators only inside their block, "
+             "break/detach last in a branch: parse_ok_core, parse_ok_tail). Every text the real learner emits for the "
+             "C01 inputs, plus definitions with several start events and loops ending in forks, must parse, and the "
+             "event names of the parsed diagram must be exactly the input's event types with no placeholder "
+             "(|||START|||, |||END|||, DUMMY_BREAK, LOOP_n). The writer is not modelled; C05_full is a stated Prop.",
+        ref="DESIGN.md §5 C05",
+        note="Trusted: the Lean parser as the definition of the dialect (written from OPERATOR_NODE_PUML_MAP and the "
+             "corpus), Lean kernel for its theorems. Recorded findings: KF-B, KF-C, one corpus file.",
+        technique="Lean 4 parser as executable grammar (with proved tail rule) + enumeration through the real learner",
+    ),
+    "C07": dict(
+        category="proof",
+        text="Lean theorems make certificate checkers decide the property's clauses on the INPUT directly-follows "
+             "graph: an order in which every edge goes forward excludes every cycle (isTopo_acyclic); if contracting "
+             "the loop bodies gives an ordered graph then every cycle of the input lies inside one loop body and none "
+             "passes through an event outside all bodies (cycle_in_one_part, no_cycle_outside_loops); exactly-once is a "
+             "permutation (exactlyOnce_iff); single entry (singleEntry_spec). The certificates (orders, assignment of "
+             "events to bodies) are read off the nesting the real detect_loops returns for the job sets of loop-bearing "
+             "fragment-F definitions and corpus files; every returned graph (top level, every body, recursively with "
+             "the edges into a body's start events removed) is checked.",
+        ref="DESIGN.md §5 C07",
+        note="Trusted: Lean kernel; axioms propext, Quot.sound, Classical.choice; networkx only proposes orders, Lean "
+             "checks them. detect_loops itself is not modelled: its output is validated per input (certificate checking "
+             "with proved checkers), not proved for all graphs. Two corpus files with repeated event names recorded.",
+        technique="Lean 4 proof of certificate checkers (order => acyclic, ordered contraction => cycles inside parts) + "
+                  "per-input certificate validation of the real detect_loops",
+    ),
     "C08": dict(
         category="proof",
         text="Lean theorems over all finite span trees and all configurations of the sequencer model: arranging siblings "
